@@ -99,6 +99,8 @@ impl World {
     /// every channel id created from now on is >= chan_floor
     pub uninterp spec fn chan_floor(&self) -> int;
     pub uninterp spec fn dl_count(&self) -> nat;
+    /// values of single-writer atomic cells (per-actor metrics cells: written only by the actor's own loop)
+    pub uninterp spec fn cells(&self) -> Map<int, u64>;
     /// the running lifecycle function still owns its by-value strong ActorRef (to mailbox chan)
     pub uninterp spec fn own_strong(&self) -> Option<int>;
 }
@@ -115,6 +117,7 @@ pub open spec fn same_ambient(w0: World, w1: World) -> bool {
     &&& w1.chan_floor() == w0.chan_floor()
     &&& w1.dl_count() == w0.dl_count()
     &&& w1.own_strong() == w0.own_strong()
+    &&& w1.cells() == w0.cells()
 }
 
 /// Arbitrary effects of user code (a hook body) on the log: an uninterpreted extension.
@@ -160,7 +163,7 @@ pub fn vx_scope_enter(id: Identity, w: &mut World)
         final(w).graph() == old(w).graph(), final(w).mmon() == old(w).mmon(),
         final(w).cap_cell() == old(w).cap_cell(), final(w).id_floor() == old(w).id_floor(),
         final(w).chan_floor() == old(w).chan_floor(), final(w).dl_count() == old(w).dl_count(),
-        final(w).own_strong() == old(w).own_strong(),
+        final(w).own_strong() == old(w).own_strong(), final(w).cells() == old(w).cells(),
 { }
 
 #[verifier::external_body]
@@ -170,7 +173,7 @@ pub fn vx_scope_exit(w: &mut World)
         final(w).graph() == old(w).graph(), final(w).mmon() == old(w).mmon(),
         final(w).cap_cell() == old(w).cap_cell(), final(w).id_floor() == old(w).id_floor(),
         final(w).chan_floor() == old(w).chan_floor(), final(w).dl_count() == old(w).dl_count(),
-        final(w).own_strong() == old(w).own_strong(),
+        final(w).own_strong() == old(w).own_strong(), final(w).cells() == old(w).cells(),
 { }
 
 // ---------------------------------------------------------------- tracing (A9: no effect)
@@ -234,21 +237,27 @@ pub trait Actor: Sized + Send + 'static {
     spec fn start_spec(args: Self::Args, actor_ref: ActorRef<Self>) -> core::result::Result<Self, Self::Error>;
 
     fn on_start(args: Self::Args, actor_ref: &ActorRef<Self>, w: &mut World) -> (r: core::result::Result<Self, Self::Error>)
-        requires hook_scope_ok(*old(w), actor_ref.id), !old(w).lock_held(),
+        requires
+            hook_scope_ok(*old(w), actor_ref.id), /*L:hook.on_start.inside_actor_scope*/
+            !old(w).lock_held(), /*L:hook.called_without_wait_for_lock*/
         ensures
             r == Self::start_spec(args, *actor_ref),
             r is Ok ==> r->Ok_0.mon() == step(mon_init::<Self::Error>(actor_ref.terminate_sender.chan(), actor_ref.sender.chan(), actor_ref.id), Ev::Started),
             hook_frame(*old(w), *final(w), HookTag::Start);
 
     fn poll_on_run(&mut self, actor_weak: &ActorWeak<Self>, w: &mut World) -> (r: Poll<core::result::Result<bool, Self::Error>>)
-        requires hook_scope_ok(*old(w), old(self).mon().id), !old(w).lock_held(),
+        requires
+            hook_scope_ok(*old(w), old(self).mon().id), /*L:hook.inside_actor_scope*/
+            !old(w).lock_held(), /*L:hook.called_without_wait_for_lock*/
         ensures
             r is Pending ==> final(self).mon() == old(self).mon(),
             r is Ready ==> final(self).mon() == step(old(self).mon(), Ev::RunDone(r->Ready_0)),
             hook_frame(*old(w), *final(w), HookTag::Run);
 
     fn on_stop(&mut self, actor_weak: &ActorWeak<Self>, killed: bool, w: &mut World) -> (r: core::result::Result<(), Self::Error>)
-        requires hook_scope_ok(*old(w), old(self).mon().id), !old(w).lock_held(),
+        requires
+            hook_scope_ok(*old(w), old(self).mon().id), /*L:hook.inside_actor_scope*/
+            !old(w).lock_held(), /*L:hook.called_without_wait_for_lock*/
         ensures
             final(self).mon() == step(old(self).mon(), Ev::Stopped(killed, match r { Ok(_) => None, Err(e) => Some(e) })),
             hook_frame(*old(w), *final(w), HookTag::Stop);
@@ -267,7 +276,9 @@ pub open spec fn hook_frame(w0: World, w1: World, tag: HookTag) -> bool {
 pub trait Message<T>: Actor {
     type Reply;
     fn handle(&mut self, msg: T, actor_ref: &ActorRef<Self>, w: &mut World) -> (r: Self::Reply)
-        requires hook_scope_ok(*old(w), old(self).mon().id), !old(w).lock_held(),
+        requires
+            hook_scope_ok(*old(w), old(self).mon().id), /*L:hook.inside_actor_scope*/
+            !old(w).lock_held(), /*L:hook.called_without_wait_for_lock*/
         ensures
             final(self).mon() == step(old(self).mon(), Ev::Handled(msg_id(msg))),
             final(w).current_actor() == old(w).current_actor(),
@@ -277,7 +288,8 @@ pub trait Message<T>: Actor {
             final(w).log() == hook_log(old(w).log(), HookTag::Handle(msg_id(msg))).push(Eff::Ret(msg_id(msg), val_id(r)));
 
     fn on_tell_result(_result: &Self::Reply, _actor_ref: &ActorRef<Self>, w: &mut World)
-        requires !old(w).lock_held(),
+        requires
+            !old(w).lock_held(), /*L:hook.called_without_wait_for_lock*/
         ensures
             final(w).current_actor() == old(w).current_actor(),
             final(w).lock_held() == old(w).lock_held(),
@@ -383,7 +395,8 @@ pub mod mpsc {
         /// waiting send: suspends (Await) until a slot is free; Ok iff enqueued; Err iff receiver closed/dropped
         #[verifier::external_body]
         pub fn send(&self, value: T, w: &mut World) -> (r: core::result::Result<(), SendError<T>>)
-            requires value.fits(self.chan()),
+            requires
+                value.fits(self.chan()), /*L:mpsc.send.message_keeps_this_mailbox_alive*/
             ensures
                 r is Ok ==> final(w).log() == old(w).log().push(Eff::Await(AwaitKind::Send)).push(Eff::Enq(self.chan(), value.view())),
                 r is Err ==> final(w).log() == old(w).log().push(Eff::Await(AwaitKind::Send)).push(Eff::Rejected(self.chan(), value.view())) && r->Err_0.0 == value,
@@ -393,7 +406,8 @@ pub mod mpsc {
         /// same channel semantics, blocking the thread instead of suspending the task
         #[verifier::external_body]
         pub fn blocking_send(&self, value: T, w: &mut World) -> (r: core::result::Result<(), SendError<T>>)
-            requires value.fits(self.chan()),
+            requires
+                value.fits(self.chan()), /*L:mpsc.send.message_keeps_this_mailbox_alive*/
             ensures
                 r is Ok ==> final(w).log() == old(w).log().push(Eff::Await(AwaitKind::Send)).push(Eff::Enq(self.chan(), value.view())),
                 r is Err ==> final(w).log() == old(w).log().push(Eff::Await(AwaitKind::Send)).push(Eff::Rejected(self.chan(), value.view())) && r->Err_0.0 == value,
@@ -403,7 +417,8 @@ pub mod mpsc {
         /// never suspends
         #[verifier::external_body]
         pub fn try_send(&self, value: T, w: &mut World) -> (r: core::result::Result<(), error::TrySendError<T>>)
-            requires value.fits(self.chan()),
+            requires
+                value.fits(self.chan()), /*L:mpsc.send.message_keeps_this_mailbox_alive*/
             ensures
                 r is Ok ==> final(w).log() == old(w).log().push(Eff::Enq(self.chan(), value.view())),
                 (r matches Err(error::TrySendError::Full(v))) ==> final(w).log() == old(w).log().push(Eff::TryFull(self.chan(), value.view())),
@@ -494,6 +509,7 @@ pub open spec fn same_ambient_but_chan(w0: World, w1: World) -> bool {
     &&& w1.id_floor() == w0.id_floor()
     &&& w1.dl_count() == w0.dl_count()
     &&& w1.own_strong() == w0.own_strong()
+    &&& w1.cells() == w0.cells()
 }
 
 // ---------------------------------------------------------------- tokio::sync::oneshot (A5)
@@ -556,7 +572,8 @@ pub struct Elapsed;
 /// purposes only through rule D, which is applied separately.
 #[verifier::external_body]
 pub fn vx_timeout_resolve<R>(d: Duration, inner: R, Ghost(l0): Ghost<Seq<Eff>>, w: &mut World) -> (r: core::result::Result<R, Elapsed>)
-    requires l0.len() <= old(w).log().len(),
+    requires
+        l0.len() <= old(w).log().len(), /*L:timeout.inner_log_extends*/
     ensures
         (r == Ok::<R, Elapsed>(inner) && final(w).log() == old(w).log().push(Eff::TimeoutArmed(d)))
         || (r is Err && exists|k: int| l0.len() <= k < old(w).log().len() && (#[trigger] old(w).log()[k] is Await)
@@ -589,7 +606,8 @@ pub uninterp spec fn join_error_id(e: JoinError) -> int;
 /// guard alive would poison the mutex.
 #[verifier::external_body]
 pub fn vx_panic_site(w: &mut World) -> !
-    requires !old(w).lock_held(),
+    requires
+        !old(w).lock_held(), /*L:panic_site.wait_for_lock_not_held*/
 { panic!() }
 
 // ---------------------------------------------------------------- std::mem::drop on tracked handles
@@ -622,7 +640,65 @@ impl AtomicU64 {
             final(w).poisoned() == old(w).poisoned(), final(w).graph() == old(w).graph(), final(w).mmon() == old(w).mmon(),
             final(w).cap_cell() == old(w).cap_cell(), final(w).chan_floor() == old(w).chan_floor(),
             final(w).own_strong() == old(w).own_strong(),
+            // single-writer cells: exact value semantics (wrapping add, previous value returned)
+            (self.cell() != cell_ACTOR_IDS() && self.cell() != cell_DEAD_LETTER_COUNT() && old(w).cells().contains_key(self.cell())) ==>
+                (r == old(w).cells()[self.cell()]
+                 && final(w).cells() == old(w).cells().insert(self.cell(), ((r as int + val as int) % 0x1_0000_0000_0000_0000) as u64)),
+            (self.cell() == cell_ACTOR_IDS() || self.cell() == cell_DEAD_LETTER_COUNT()) ==> final(w).cells() == old(w).cells(),
     { unimplemented!() }
+
+    /// a new atomic is a fresh cell holding v
+    #[verifier::external_body]
+    pub fn new(v: u64, w: &mut World) -> (r: AtomicU64)
+        ensures
+            !old(w).cells().contains_key(r.cell()), r.cell() != cell_ACTOR_IDS(), r.cell() != cell_DEAD_LETTER_COUNT(),
+            final(w).cells() == old(w).cells().insert(r.cell(), v),
+            final(w).log() == old(w).log(), same_ambient_but_cells(*old(w), *final(w)),
+    { unimplemented!() }
+
+    #[verifier::external_body]
+    pub fn load(&self, order: Ordering, w: &mut World) -> (r: u64)
+        ensures old(w).cells().contains_key(self.cell()) ==> r == old(w).cells()[self.cell()], *final(w) == *old(w),
+    { unimplemented!() }
+
+    #[verifier::external_body]
+    pub fn store(&self, v: u64, order: Ordering, w: &mut World)
+        ensures final(w).cells() == old(w).cells().insert(self.cell(), v), final(w).log() == old(w).log(), same_ambient_but_cells(*old(w), *final(w)),
+    { unimplemented!() }
+
+    #[verifier::external_body]
+    pub fn fetch_max(&self, v: u64, order: Ordering, w: &mut World) -> (r: u64)
+        ensures
+            old(w).cells().contains_key(self.cell()) ==> (r == old(w).cells()[self.cell()]
+                && final(w).cells() == old(w).cells().insert(self.cell(), if r >= v { r } else { v })),
+            final(w).log() == old(w).log(), same_ambient_but_cells(*old(w), *final(w)),
+    { unimplemented!() }
+
+    /// rule R8-F: `fetch_update(o1, o2, |p| B)` is an atomic read-modify-write (a CAS loop): the closure is unfolded between
+    /// vx_rmw_load and vx_rmw_commit, which together are one atomic step on this cell (A10)
+    #[verifier::external_body]
+    pub fn vx_rmw_load(&self, w: &mut World) -> (r: u64)
+        ensures old(w).cells().contains_key(self.cell()) ==> r == old(w).cells()[self.cell()], *final(w) == *old(w),
+    { unimplemented!() }
+    #[verifier::external_body]
+    pub fn vx_rmw_commit(&self, prev: u64, upd: Option<u64>, w: &mut World) -> (r: core::result::Result<u64, u64>)
+        ensures
+            upd matches Some(v) ==> r == Ok::<u64, u64>(prev) && final(w).cells() == old(w).cells().insert(self.cell(), v),
+            upd is None ==> r == Err::<u64, u64>(prev) && final(w).cells() == old(w).cells(),
+            final(w).log() == old(w).log(), same_ambient_but_cells(*old(w), *final(w)),
+    { unimplemented!() }
+}
+pub open spec fn same_ambient_but_cells(w0: World, w1: World) -> bool {
+    &&& w1.current_actor() == w0.current_actor()
+    &&& w1.lock_held() == w0.lock_held()
+    &&& w1.poisoned() == w0.poisoned()
+    &&& w1.graph() == w0.graph()
+    &&& w1.mmon() == w0.mmon()
+    &&& w1.cap_cell() == w0.cap_cell()
+    &&& w1.id_floor() == w0.id_floor()
+    &&& w1.chan_floor() == w0.chan_floor()
+    &&& w1.dl_count() == w0.dl_count()
+    &&& w1.own_strong() == w0.own_strong()
 }
 pub open spec fn cell_ACTOR_IDS() -> int { 1 }
 pub open spec fn cell_DEAD_LETTER_COUNT() -> int { 2 }
@@ -647,7 +723,7 @@ impl OnceLock<usize> {
             final(w).current_actor() == old(w).current_actor(), final(w).lock_held() == old(w).lock_held(),
             final(w).poisoned() == old(w).poisoned(), final(w).graph() == old(w).graph(), final(w).mmon() == old(w).mmon(),
             final(w).id_floor() == old(w).id_floor(), final(w).chan_floor() == old(w).chan_floor(),
-            final(w).dl_count() == old(w).dl_count(), final(w).own_strong() == old(w).own_strong(),
+            final(w).dl_count() == old(w).dl_count(), final(w).own_strong() == old(w).own_strong(), final(w).cells() == old(w).cells(),
     { unimplemented!() }
     #[verifier::external_body]
     pub fn get(&self, w: &mut World) -> (r: Option<&usize>)
@@ -713,7 +789,7 @@ impl Mutex<HashMap<u64, Identity>> {
             final(w).current_actor() == old(w).current_actor(), final(w).poisoned() == old(w).poisoned(),
             final(w).mmon() == old(w).mmon(), final(w).cap_cell() == old(w).cap_cell(),
             final(w).id_floor() == old(w).id_floor(), final(w).chan_floor() == old(w).chan_floor(),
-            final(w).dl_count() == old(w).dl_count(), final(w).own_strong() == old(w).own_strong(),
+            final(w).dl_count() == old(w).dl_count(), final(w).own_strong() == old(w).own_strong(), final(w).cells() == old(w).cells(),
     { unimplemented!() }
 }
 
@@ -737,6 +813,7 @@ impl VxDrop for Box<HashMap<u64, Identity>> {
         &&& w1.chan_floor() == w0.chan_floor()
         &&& w1.dl_count() == w0.dl_count()
         &&& w1.own_strong() == w0.own_strong()
+        &&& w1.cells() == w0.cells()
     }
 }
 
@@ -744,3 +821,29 @@ impl VxDrop for Box<HashMap<u64, Identity>> {
 #[cfg(feature = "deadlock-detection")]
 #[verifier::external_body]
 pub fn format_cycle_path(graph: &HashMap<u64, Identity>, caller: Identity, callee: Identity) -> String { unimplemented!() }
+
+// ---------------------------------------------------------------- Duration / SystemTime pieces the metrics code uses (A11)
+pub uninterp spec fn dur_nanos(d: Duration) -> nat;
+pub assume_specification[ Duration::as_nanos ](d: &Duration) -> (r: u128)
+    ensures r as nat == dur_nanos(*d);
+pub assume_specification[ Duration::from_nanos ](n: u64) -> (r: Duration)
+    ensures dur_nanos(r) == n as nat;
+#[verifier::external_body]
+pub fn vx_min_u128(a: u128, b: u128) -> (r: u128) ensures r == (if a <= b { a } else { b }) { if a <= b { a } else { b } }
+#[verifier::external_body]
+#[derive(Clone, Copy)]
+pub struct SystemTime { _p: () }
+
+/// ghost bookkeeping (like vx_note): advance the metrics monitor; inserted by contract at the start of
+/// MessageProcessingGuard::new, where the measurement starts
+#[verifier::external_body]
+pub fn vx_mmon_note(Ghost(e): Ghost<MEv>, w: &mut World)
+    ensures final(w).mmon() == mstep(old(w).mmon(), e), final(w).log() == old(w).log(),
+        final(w).current_actor() == old(w).current_actor(), final(w).lock_held() == old(w).lock_held(),
+        final(w).poisoned() == old(w).poisoned(), final(w).graph() == old(w).graph(),
+        final(w).cap_cell() == old(w).cap_cell(), final(w).id_floor() == old(w).id_floor(),
+        final(w).chan_floor() == old(w).chan_floor(), final(w).dl_count() == old(w).dl_count(),
+        final(w).own_strong() == old(w).own_strong(), final(w).cells() == old(w).cells(),
+{ }
+#[verifier::external_body]
+pub fn vx_duration_zero() -> (r: Duration) ensures dur_nanos(r) == 0 { Duration::ZERO }
